@@ -77,7 +77,17 @@ def layouts(k, lo, hi):
 
 
 def rand_ref(rng, n):
-    return "".join(rng.choice(BASES) for _ in range(n))
+    """reference / allele letters; a quarter of the texts is soft-masked (a lower-case stretch, or all lower case): the
+    edit model substitutes alleles literally, case included"""
+    t = "".join(rng.choice(BASES) for _ in range(n))
+    r = rng.random()
+    if n and r < 0.12:
+        return t.lower()
+    if n and r < 0.25:
+        a = rng.randrange(0, n)
+        b = rng.randint(a, n)
+        return t[:a] + t[a:b].lower() + t[b:]
+    return t
 
 
 def rand_variant(rng, ref, lo, hi):
@@ -86,7 +96,7 @@ def rand_variant(rng, ref, lo, hi):
     n = hi - lo
     if kind == "snv" or n < 2:
         s = rng.randrange(lo, hi)
-        return s, s + 1, rng.choice([b for b in BASES if b != ref[s]])
+        return s, s + 1, rng.choice([b for b in BASES + BASES.lower() if b != ref[s]])
     if kind == "mnv":
         ln = rng.randint(2, min(3, n))
         s = rng.randint(lo, hi - ln)
